@@ -12,7 +12,9 @@ import LexVerif.Model.Ops.WriteFloat
 import LexVerif.Model.Ops.WriteAlgos
 import LexVerif.Model.Ops.ParseAlgos
 import LexVerif.Model.Ops.OptionsValid
+import LexVerif.Model.Ops.WriteRadix
 import LexVerif.Model.Ops.ParseFloatAlgo
+import LexVerif.Model.Ops.Slow
 /-!
 # Driver — line-protocol evaluator of the Lean models and specifications
 
@@ -171,7 +173,7 @@ def specOf (feats : Features) (t : List String) : String :=
 /-- model column: the first handler that recognises the op answers.
 Each `Model/Ops/*.lean` exposes `handle : Features → List String → Option String`. -/
 def modelHandlers : List (Features → List String → Option String) :=
-  [LexVerif.Model.Ops.OptionsValid.handle,
+  [LexVerif.Model.Ops.OptionsValid.handle, LexVerif.Model.Ops.WriteRadix.handle, LexVerif.Model.Ops.Slow.handle,
    LexVerif.Model.Ops.ParseInt.handle, LexVerif.Model.Ops.FormatError.handle, LexVerif.Model.Ops.ParseIntFormat.handle, LexVerif.Model.Ops.WriteInt.handle,
    LexVerif.Model.Ops.ParseFloat.handle, LexVerif.Model.Ops.ParseFloatAlgo.handle, LexVerif.Model.Ops.ParseAlgos.handle, LexVerif.Model.Ops.WriteAlgos.handle,
    LexVerif.Model.Ops.WriteFloat.handle]
@@ -181,7 +183,7 @@ def modelOf (feats : Features) (t : List String) : String :=
 
 /-- specification handlers consulted before `specOf` (configuration errors pre-empt value specifications) -/
 def specHandlers : List (Features → List String → Option String) :=
-  [LexVerif.Model.Ops.FormatError.spec,
+  [LexVerif.Model.Ops.FormatError.spec, LexVerif.Model.Ops.Slow.spec,
    LexVerif.Model.Ops.GrammarSpec.spec,
    LexVerif.Model.Ops.ParseAlgos.spec,
    LexVerif.Model.Ops.WriteAlgos.spec,
